@@ -165,7 +165,11 @@ STAGES = {
            ("Select", "{v}.Select(lambda j: j.pt())", "Fs"), ("Where", "{v}.Count() > 0", "Js")],
     "Fs": [("Select", "{v}.Count()", "I"), ("SelectMany", "{v}", "F"), ("Where", "{v}.Count() > 1", "Fs")],
     "Is": [("SelectMany", "{v}", "I")],
-    "F": [("Select", "{v} * 2", "F"), ("Where", "{v} > 0", "F"), ("Select", "add_offset({v})", "F")],
+    "F": [("Select", "{v} * 2", "F"), ("Where", "{v} > 0", "F"), ("Select", "add_offset({v})", "F"),
+          # helpers called with keywords after earlier helper stages; a called lambda around them
+          ("Select", "ratio({v} + {v}, b=(3.0 if 0 < 1 else {v}))", "F"),
+          ("Select", "(lambda w: ratio({v}, b=w))(add_offset({v}))", "F"),
+          ("Where", "ratio({v}, b=-1.0) >= ({v} + OFFSET) or {v} != 3.0", "F")],
     "I": [("Select", "{v} + 1", "I"), ("Where", "{v} > 0", "I")],
     "TFI": [("Select", "{v}[0] + {v}[1]", "F"), ("Where", "{v}[1] > 0", "TFI"), ("Select", "{v}[1]", "I")],
     "TFF": [("Select", "{v}[0] * {v}[1]", "F"), ("Where", "{v}[0] > {v}[1]", "TFF")],
@@ -180,7 +184,195 @@ TERMINALS = [None, ".AsAwkwardArray(['c'])", ".AsROOTTTree('f.root', 't', 'c')",
              ".QMetaData({'q': 1})"]
 
 
-def build_chains(rng, n_chains, max_len):
+class RandBody:
+    """Random well-typed lambda bodies over the class model of MODEL (method form, defaults and
+    keywords, nested operators, closures over outer parameters, comprehensions, called lambdas,
+    tuple packaging + projection); kinds as in STAGES."""
+
+    def __init__(self, rng, captures=False):
+        self.rng, self.k, self.captures = rng, 0, captures
+
+    def fresh(self, scope):
+        if scope and self.rng.random() < 0.2:
+            return self.rng.choice([n for n, _ in scope])
+        self.k += 1
+        return f"w{self.k}"
+
+    def bind(self, scope, v, kind):
+        return [(n, k) for n, k in scope if n != v] + [(v, kind)]
+
+    def pick(self, opts):
+        for _ in range(8):
+            r = self.rng.choice(opts)()
+            if r is not None:
+                return r
+        return None
+
+    def vars(self, scope, kind):
+        return [n for n, k in scope if k == kind]
+
+    def flt(self, scope, d):
+        r = self.rng
+        opts = [lambda: repr(float(r.randint(-2, 4)))]
+        for n in self.vars(scope, "F"):
+            opts += [lambda n=n: n] * 2
+        for n in self.vars(scope, "E"):
+            opts += [lambda n=n: f"{n}.met()"] * 2
+        for n in self.vars(scope, "J"):
+            opts += [lambda n=n: f"{n}.{r.choice(['pt()', 'eta()', 'pt(2.0)', 'pt(scale=0.5)', 'shift(1.0)', 'shift(b=2.0, a=1.0)', 'shift(0.5, 2.0)'])}"] * 3
+        for n in self.vars(scope, "T"):
+            opts += [lambda n=n: f"{n}.pt()"] * 2
+        if d > 0:
+            opts += [lambda: self._bin(scope, d - 1), lambda: self._cond(scope, d - 1),
+                     lambda: self._proj(scope, d - 1), lambda: self._called(scope, d - 1),
+                     lambda: self._of_first(scope, d - 1)]
+            if self.captures:
+                opts += [lambda: f"add_offset({self.flt(scope, d - 1)})",
+                         lambda: f"({self.flt(scope, d - 1)} + OFFSET)",
+                         lambda: f"ratio({self.flt(scope, d - 1)}, b={self.flt(scope, d - 1)})"]
+        return self.pick(opts)
+
+    def _bin(self, scope, d):
+        a, b = self.flt(scope, d), self.flt(scope, d)
+        return None if None in (a, b) else f"({a} {self.rng.choice(['+', '-', '*'])} {b})"
+
+    def _cond(self, scope, d):
+        a, b, c = self.flt(scope, d), self.boo(scope, d), self.flt(scope, d)
+        return None if None in (a, b, c) else f"({a} if {b} else {c})"
+
+    def _proj(self, scope, d):
+        a, b = self.flt(scope, d), self.flt(scope, d)
+        return None if None in (a, b) else self.rng.choice([f"({a}, {b})[0]", f"({b}, {a})[1]", f"[{a}, {b}][0]"])
+
+    def _called(self, scope, d):
+        a = self.flt(scope, d)
+        p = self.fresh(scope)
+        b = self.flt(self.bind(scope, p, "F"), d)
+        return None if None in (a, b) else f"(lambda {p}: {b})({a})"
+
+    def _of_first(self, scope, d):
+        s = self.seq("J", scope, d)
+        return None if s is None else f"{s}.First().{self.rng.choice(['pt()', 'eta()', 'shift(1.0)'])}"
+
+    def intx(self, scope, d):
+        opts = [lambda: str(self.rng.randint(0, 3))]
+        for n in self.vars(scope, "I"):
+            opts += [lambda n=n: n] * 2
+        if d >= 0:
+            def cnt():
+                s = self.seq(self.rng.choice(["J", "T"]), scope, max(d - 1, 0))
+                return None if s is None else self.rng.choice([f"{s}.Count()", f"len({s})"])
+            opts += [cnt] * 3
+        if d > 0:
+            opts.append(lambda: f"({self.intx(scope, d - 1)} + {self.intx(scope, d - 1)})")
+        return self.pick(opts)
+
+    def boo(self, scope, d):
+        r = self.rng
+        if r.random() < 0.5:
+            a, b = self.flt(scope, max(d - 1, 0)), self.flt(scope, max(d - 1, 0))
+        else:
+            a, b = self.intx(scope, max(d - 1, 0)), self.intx(scope, max(d - 1, 0))
+        if a is None or b is None:
+            return None
+        base = f"{a} {r.choice(['>', '<', '>=', '!='])} {b}"
+        if d > 0 and r.random() < 0.3:
+            c = self.boo(scope, d - 1)
+            if c is not None:
+                return f"({base} {r.choice(['and', 'or'])} {c})"
+        return base
+
+    def seq(self, ek, scope, d):
+        opts = []
+        if ek == "J":
+            for n in self.vars(scope, "E"):
+                opts += [lambda n=n: f"{n}.Jets()", lambda n=n: f"{n}.Jets('first')",
+                         lambda n=n: f"{n}.Jets(name='std')"]
+            for n in self.vars(scope, "Js"):
+                opts.append(lambda n=n: n)
+        if ek == "T":
+            for n in self.vars(scope, "J"):
+                opts += [lambda n=n: f"{n}.Tracks()"] * 2
+        if ek == "F":
+            for n in self.vars(scope, "Fs"):
+                opts.append(lambda n=n: n)
+        if d > 0:
+            if ek in ("J", "T"):
+                opts.append(lambda: self._where(ek, scope, d - 1))
+                if ek == "T":
+                    opts.append(lambda: self._smany("J", "T", scope, d - 1))
+            if ek in ("F", "I"):
+                opts += [lambda: self._select(ek, scope, d - 1), lambda: self._comp(ek, scope, d - 1)]
+        return self.pick(opts) if opts else None
+
+    def _where(self, ek, scope, d):
+        s = self.seq(ek, scope, d)
+        if s is None:
+            return None
+        v = self.fresh(scope)
+        b = self.boo(self.bind(scope, v, ek), d)
+        return None if b is None else f"{s}.Where(lambda {v}: {b})"
+
+    def _select(self, ek, scope, d):
+        sk = self.rng.choice(["J", "T"])
+        s = self.seq(sk, scope, d)
+        if s is None:
+            return None
+        v = self.fresh(scope)
+        sc = self.bind(scope, v, sk)
+        b = self.flt(sc, d) if ek == "F" else self.intx(sc, d)
+        return None if b is None else f"{s}.Select(lambda {v}: {b})"
+
+    def _comp(self, ek, scope, d):
+        sk = self.rng.choice(["J", "T"])
+        s = self.seq(sk, scope, d)
+        if s is None:
+            return None
+        v = self.fresh(scope)
+        sc = self.bind(scope, v, sk)
+        b = self.flt(sc, d) if ek == "F" else self.intx(sc, d)
+        c = self.boo(sc, 0)
+        if b is None:
+            return None
+        return f"[{b} for {v} in {s}" + (f" if {c}]" if c is not None and self.rng.random() < 0.5 else "]")
+
+    def _smany(self, sk, ek, scope, d):
+        s = self.seq(sk, scope, d)
+        if s is None:
+            return None
+        v = self.fresh(scope)
+        b = self.seq(ek, self.bind(scope, v, sk), d)
+        return None if b is None else f"{s}.SelectMany(lambda {v}: {b})"
+
+    def stage(self, kind, v, d):
+        """(operator, body with {v} placeholder, resulting kind) for a stream of element `kind`"""
+        if kind not in ("E", "J", "T", "F", "I", "Js", "Fs"):
+            return None
+        scope = [(v, kind)]
+        r = self.rng
+        what = r.choice(["F", "F", "I", "B", "seqJ", "seqT", "seqF", "many"])
+        body = out = op = None
+        if what == "F":
+            body, op, out = self.flt(scope, d), "Select", "F"
+        elif what == "I":
+            body, op, out = self.intx(scope, d), "Select", "I"
+        elif what == "B":
+            body, op, out = self.boo(scope, d), "Where", kind
+        elif what == "seqJ":
+            body, op, out = self.seq("J", scope, d), "Select", "Js"
+        elif what == "seqF":
+            body, op, out = self.seq("F", scope, d), "Select", "Fs"
+        elif what == "seqT":
+            body, op, out = self.seq("T", scope, d), "SelectMany", "T"
+        else:
+            ek = r.choice(["J", "F"])
+            body, op, out = self.seq(ek, scope, d), "SelectMany", ek
+        if body is None or v not in body:
+            return None
+        return op, body.replace("{", "{{").replace("}", "}}").replace(v, "{v}"), out
+
+
+def build_chains(rng, n_chains, max_len, rand_p=0.0):
     chains = []
     for _ in range(n_chains):
         kind = "E"
@@ -190,10 +382,25 @@ def build_chains(rng, n_chains, max_len):
             if not opts:
                 break
             op, body, k2 = rng.choice(opts)
+            if rand_p and rng.random() < rand_p:
+                # a randomly generated body instead of one from the table
+                rb = RandBody(rng, captures=rng.random() < 0.3)
+                st = None
+                for _ in range(6):
+                    st = rb.stage(kind, "qq", rng.randint(1, 3))
+                    if st is not None:
+                        break
+                if st is not None:
+                    op, body, k2 = st
             stages.append((op, body, f"v{depth}"))
             kind = k2
         term = rng.choice(TERMINALS)
         chains.append((stages, term))
+    chains.append(([("Select", "ratio({v}.met(), b={v}.Jets().Count())", "v0"),
+                    ("Select", "add_offset({v})", "v1"),
+                    ("Select", "ratio({v} + {v}, b=(3.0 if 0 < 1 else {v}))", "v2")], None))
+    chains.append(([("Select", "{v}.met()", "v0"),
+                    ("Select", "(lambda w: ratio({v}, b=w))(add_offset({v}))", "v1")], None))
     # every single stage at least once, directly on the root
     for op, body, k2 in STAGES["E"]:
         chains.append(([(op, body, "v0")], None))
@@ -229,7 +436,7 @@ def run(t):
     from func_adl.ast.function_simplifier import simplify_chained_calls
     rng = t.rng
     quick = t.tier == "quick"
-    chains = build_chains(rng, 60 if quick else 500, 3 if quick else 4)
+    chains = build_chains(rng, 60 if quick else 1500, 3 if quick else 4, 0.25 if quick else 0.6)
     t.rules.append("operator chains (length <= 3 quick / 4 thorough, kind-directed so they are well "
                    "typed; branching from the two shared roots) over a class model with methods that "
                    "have defaults; lambda bodies: attributes/method calls with defaults and keywords, "
